@@ -563,6 +563,10 @@ def run_property(pid, tier, rep):
     B = 1500
     for i in range(0, len(recs), B):
         judge_and_report(rep, pid, recs[i:i + B], violations if i == 0 else [], label=f"TraceAlign {pid} batch {i // B}")
+    if pid == "C03":
+        # the life cycle of alignment OBJECTS (AlignObj.tla): carried values under any history of computations and setters
+        from . import alignobj
+        alignobj.run(rep, pa, random.Random(seed() * 1000003 + 303), quick)
     if pid in ("C08",):
         n_glpk = sum(1 for r in recs if r["backend"] == "GLPK_MI")
         n_cbc = sum(1 for r in recs if r["backend"] == "CBC")
